@@ -11,7 +11,9 @@ LinkDst == {"own", "other", "bcast", "mcast"}
 Src4 == {"uni-on", "uni-off", "lim-bcast", "net-bcast", "mcast", "unspec", "loop", "own"}
 Dst4 == {"own", "own2", "other-on", "other-off", "net-bcast", "lim-bcast", "mc-all", "mc-other", "unspec", "loop"}
 Src6 == {"uni", "ll", "mcast", "unspec", "loop"}
-Dst6 == {"own", "own2", "own-ll", "other", "all-nodes", "sol-node", "mc-other", "unspec", "loop"}
+\* "other-tail": another host's unicast address that shares the last 16 bits with ours; "sol-other": the solicited-node
+\* group of another host, equal to ours in the last 16 bits but not in the 24 that define the group
+Dst6 == {"own", "own2", "own-ll", "other", "other-tail", "all-nodes", "sol-node", "sol-other", "mc-other", "unspec", "loop"}
 Protos == {"echo", "icmp-err", "udp-open", "udp-bound", "udp-closed", "syn-open", "syn-bound", "syn-closed", "ack-closed", "rst-closed", "unknown",
            "ns", "mld-query", "igmp-query"}
 \* "opts": a clean IPv4 header carrying four octets of options; "ip-opt": the same with one bit of the options flipped
